@@ -13,7 +13,7 @@ Print Assumptions C08_tag_is_rfc2104_hmac.
 
 Theorem C08_tag_length : forall hbuf hm key msg t,
   hmac_model hbuf hm key msg = Some t ->
-  length t = match hm with 0 => 20 | 1 => 16 | _ => 32 end%nat.
+  length t = match hm with 0 => 20%nat | 1 => 16%nat | _ => 32%nat end.
 Proof. exact C08_tag_length_proof. Qed.
 Print Assumptions C08_tag_length.
 
